@@ -263,6 +263,30 @@ func (eng *Engine) FrameScan() *frameResult {
 						res.Violations = append(res.Violations, site)
 					}
 				}
+				// a mutating method of a sync type (Map.Store, Pool.Get / Put, Mutex.Lock ...) called on an object that is
+				// shared between calls: state that outlives the call, whatever it is used for. (The one such object the
+				// library has, the back-reference cache, reaches its Store through a parameter of BackrefRegex; its
+				// coherence is the subject of a bounded stand-in.)
+				if call, ok := in.(*ssa.Call); ok {
+					if callee := call.Call.StaticCallee(); callee != nil && callee.Signature.Recv() != nil && len(call.Call.Args) > 0 {
+						rt := callee.Signature.Recv().Type()
+						if pt, ok := rt.(*types.Pointer); ok {
+							rt = pt.Elem()
+						}
+						if nt, ok := rt.(*types.Named); ok && nt.Obj().Pkg() != nil && (nt.Obj().Pkg().Path() == "sync" || nt.Obj().Pkg().Path() == "sync/atomic") {
+							switch callee.Name() {
+							case "Load", "Range", "RLock", "RUnlock", "Wait":
+							default:
+								if c := cat(call.Call.Args[0], 0); c == "shared" {
+									site := frameSite{Func: f.String(), Pos: eng.fset.Position(in.Pos()).String(), What: "call of (" + nt.Obj().Pkg().Name() + "." + nt.Obj().Name() + ")." + callee.Name() + " on state shared between calls", Verdict: "shared"}
+									site.Pos = strings.TrimPrefix(site.Pos, strings.TrimSuffix(eng.repo, "/")+"/")
+									res.Sites = append(res.Sites, site)
+									res.Violations = append(res.Violations, site)
+								}
+							}
+						}
+					}
+				}
 				var target ssa.Value
 				what := ""
 				switch t := in.(type) {
